@@ -44,6 +44,8 @@ class C08(Check):
         from scipy.interpolate import BSpline
         self.B = B
         self.BSpline = BSpline
+        self.brd.per_case = 3
+        self.brd.attach(self.rec, B.bspline, 'value', every=3, own=True)      # buffer-reuse differential (vlib/brd.py)
         self.rec.wrap(B.bspline, 'value')
         self.rec.wrap(B.bspline, 'intrv')
         self.rec.wrap(B.bspline, 'bsplvn')
